@@ -367,3 +367,53 @@ def guard_has_is(g, keystr, variant, pol=True):
             return True
         return False
     return every_disjunct_has(g, p)
+
+
+# ---------------------------------------------------------------------------------------------------------
+# iterator chains:  source.adaptor(..).adaptor(..).consumer()
+# ---------------------------------------------------------------------------------------------------------
+
+def closure_of_operand(W, f, op):
+    """the closure function an operand denotes (a closure value built in f), or the path of a fn item"""
+    src = trace_back(W, f, op, strict=True)
+    if src and src[0] == 'stmt' and src[1].rv.k == 'agg' and src[1].rv.j.get('ak') == 'closure':
+        from .facts import strip_generics
+        cp = strip_generics(src[1].rv.j['closure'])
+        for c in W.closures_of(f):
+            if c.path == cp:
+                return ('closure', c)
+    if op.kind == 'const' and op.fn_path():
+        return ('fn', op.fn_path())
+    if src and src[0] == 'const' and src[1].fn_path():
+        return ('fn', src[1].fn_path())
+    return None
+
+
+def iter_chain(W, f, consumer_term, max_len=12):
+    """walk an iterator chain backwards from its consumer: list of (segment, term) from the source to the consumer"""
+    chain = [(last_seg(consumer_term.callee.best), consumer_term)]
+    cur = consumer_term
+    for _ in range(max_len):
+        if not cur.args:
+            break
+        src = trace_back(W, f, cur.args[0], strict=True)
+        if not src or src[0] != 'call':
+            break
+        cur = src[1]
+        chain.append((last_seg(cur.callee.best) if cur.callee.indirect is None else 'indirect', cur))
+    chain.reverse()
+    return chain
+
+
+def closure_return_expr(W, clo):
+    from .facts import Place
+    return W.ctx(clo).expr_place(Place({'l': 0, 'p': []}))
+
+
+def find_min_chain(W, f):
+    """the Iterator::min call whose result is (after unwrap_or / unwrap / expect / map) what f returns or assigns"""
+    out = []
+    for t in f.calls():
+        if t.callee.indirect is None and last_seg(t.callee.best) == 'min' and len(t.args) == 1:
+            out.append(t)
+    return out
